@@ -235,6 +235,7 @@ class Extractor:
             fn = ev.yield_fns[0]        # report at the function that actually produces the nodes
         sch = Schema(rule=rc, attrs=attrs, entry=nm, fn=fn, subject=S, branches=branches, kw=kw,
                      guards=ev.guards, family=family, ticking=bool(ticking))
+        sch.problems.extend(ev.release_problems)
         for kind_, val, nbefore, text in ev.has_guards:
             later, kws = [], []
             for y in ev.yields[nbefore:]:
@@ -303,6 +304,7 @@ class Eval:
         self.ex, self.m, self.rc, self.attrs, self.S, self.fn = ex, ex.m, rc, attrs, S, fn
         self.yields = []
         self.guards = []
+        self.release_problems = []
         self.has_guards = []          # (value of x in a `branch.has(x)` skip, number of yields before it, source text)
         self.where = ex.m.floc(fn)
         self.owner = fn.owner
@@ -359,17 +361,41 @@ class Eval:
                          and ast.unparse(x.value.func) == 'self[FilterHelper].release')
                         for x in st.body) and not (isinstance(st.body[-1], ast.Return) and st.body[-1].value is not None)
                 text = ast.unparse(st.test)
+                if any(isinstance(c_, ast.Call) and isinstance(c_.func, ast.Attribute) and c_.func.attr == 'isleast' for c_ in ast.walk(st.test)):
+                    # the fairness gate, whatever its polarity or extra conditions: which nodes it postpones and that the postponement
+                    # ends is decided on the code itself by helpersfold.fold_fair_gate (C02.R8); here both readings give the rule's output
+                    releases = any(isinstance(x, ast.Expr) and isinstance(x.value, ast.Call) and ast.unparse(x.value.func) == 'self[FilterHelper].release' for x in ast.walk(st) if isinstance(x, ast.Expr))
+                    if releases:
+                        self.release_problems.append(f'{text}|a node is released (`self[FilterHelper].release`) under the fairness gate `{text}`, a temporary condition: '
+                                                     f'once skipped it is never a candidate again')
+                    self.guards.append('fairness gate: ' + text)
+                    if skip:
+                        continue
+                    if not st.orelse:
+                        r = self.run(st.body, env)
+                        if r:
+                            return r
+                        continue
+                    raise self.unsupported(f'fairness gate with two arms `{text}`')
                 if skip and self.has_guard(st.test, env, text):
                     continue
                 if skip and text in ACCEPTED_GUARDS:
                     self.guards.append(text)
+                    releases = any(isinstance(x, ast.Expr) and isinstance(x.value, ast.Call) and ast.unparse(x.value.func) == 'self[FilterHelper].release' for x in st.body)
+                    if releases and 'isleast' in text:
+                        # release() takes the node out of the rule's candidates for good; the fairness gate is a temporary condition
+                        self.release_problems.append(f'{text}|the node is released (`self[FilterHelper].release`) under the fairness gate `{text}`, a temporary condition: '
+                                                     f'once skipped it is never a candidate again')
                     continue
                 # the same guards written the other way round: `if <not guard>: <the rest>` (no else)
                 neg = negate_text(st.test)
                 negast = st.test.operand if isinstance(st.test, ast.UnaryOp) and isinstance(st.test.op, ast.Not) else \
                     ast.Compare(left=st.test.left, ops=[ast.In()], comparators=st.test.comparators) \
                     if isinstance(st.test, ast.Compare) and len(st.test.ops) == 1 and isinstance(st.test.ops[0], ast.NotIn) else None
-                if not st.orelse and negast is not None and self.has_guard(negast, env, neg):
+                is_skipstmt = lambda x: isinstance(x, (ast.Continue, ast.Pass)) or (isinstance(x, ast.Return) and x.value is None) or \
+                    (isinstance(x, ast.Expr) and isinstance(x.value, ast.Call) and ast.unparse(x.value.func) == 'self[FilterHelper].release')
+                skip_else = all(is_skipstmt(x) for x in st.orelse)          # no else, or an else arm that only skips / releases
+                if skip_else and negast is not None and self.has_guard(negast, env, neg):
                     r = self.run(st.body, env)
                     if r:
                         return r
